@@ -85,10 +85,13 @@ def _(c):
     s = f([x, y, z, vx, vy, vz])
     r, th, ph = s[0], s[1], s[2]
     rho = sym.sqrt(x * x + y * y)
-    c.lemma("cos_phi_r_is_rho", sym.cos(ph) * r == rho, budget_ms=60000)
+    c.lemma("cos_phi_r_is_rho", sym.cos(ph) * r == rho, budget_ms=120000)
+    c.lemma("azimuth_direction", sym.And(sym.cos(th) * rho == x, sym.sin(th) * rho == y), budget_ms=120000)
     b = g(list(s))
-    for k, want in enumerate([x, y, z, vx, vy, vz]):
-        c.ensure(f"identity.{k}", b[k] == want, budget_ms=60000)
+    for k, want in enumerate([x, y, z]):
+        c.lemma(f"identity.{k}", b[k] == want, budget_ms=120000)
+    for k, want in enumerate([vx, vy, vz]):
+        c.ensure(f"identity.{k + 3}", b[k + 3] == want, budget_ms=120000)
 
 
 @contract("C01", "rt.spherical_cartesian", funcs=[f"{FORM}._cartesian_to_spherical", f"{FORM}._spherical_to_cartesian"])
@@ -192,9 +195,10 @@ def _(c):
     k = g(list(q))
     c.ensure("back.a", k[0] == a)
     c.ensure("back.e", k[1] == e, budget_ms=60000)
-    c.ensure("back.raan", sym.And(sym.cos(k[3]) == sym.cos(O), sym.sin(k[3]) == sym.sin(O)), budget_ms=60000)
-    c.ensure("back.argp", sym.And(sym.cos(k[4]) == sym.cos(wp), sym.sin(k[4]) == sym.sin(wp)), budget_ms=60000)
-    c.ensure("back.nu", sym.And(sym.cos(k[5]) == sym.cos(nu), sym.sin(k[5]) == sym.sin(nu)), budget_ms=60000)
+    # (lemmas: proved, then available to the next ones -- the anomaly is recovered from the two angles recovered before it)
+    c.lemma("back.raan", sym.And(sym.cos(k[3]) == sym.cos(O), sym.sin(k[3]) == sym.sin(O)), budget_ms=120000)
+    c.lemma("back.argp", sym.And(sym.cos(k[4]) == sym.cos(wp), sym.sin(k[4]) == sym.sin(wp)), budget_ms=120000)
+    c.ensure("back.nu", sym.And(sym.cos(k[5]) == sym.cos(nu), sym.sin(k[5]) == sym.sin(nu)), budget_ms=120000)
     # i' = 2 atan(tan(i/2)):  tan(i'/2) = tan(i/2) with both half angles in (0, pi/2)
     c.ensure("back.i.half_tangent", sym.sin(k[2] / 2) * sym.cos(i / 2) == sym.cos(k[2] / 2) * sym.sin(i / 2), budget_ms=60000)
 
@@ -273,12 +277,17 @@ def _(c):
     out = f([a, e, i, O, wp, nu])
     H = out[5]
     r_nu = a * (1 - e * e) / den
+    # ghost lemmas (proved, then used): the hyperbolic functions of the returned anomaly are the code's two intermediate quotients
+    c.lemma("cosh_H", sym.cosh(H) == (e + sym.cos(nu)) / den, budget_ms=120000)
+    c.lemma("sinh_H", sym.sinh(H) == sym.sin(nu) * sym.sqrt(e * e - 1) / den, budget_ms=120000)
     c.ensure("radius", a * (1 - e * sym.cosh(H)) == r_nu, budget_ms=60000)
     c.ensure("x_perifocal", r_nu * sym.cos(nu) == a * (sym.cosh(H) - e), budget_ms=60000)
     c.ensure("y_perifocal", r_nu * sym.sin(nu) == -a * sym.sqrt(e * e - 1) * sym.sinh(H), budget_ms=60000)
     k = g(list(out))
-    c.ensure("back.cos", sym.cos(k[5]) == sym.cos(nu), budget_ms=60000)
-    c.ensure("back.sin", sym.sin(k[5]) == sym.sin(nu), budget_ms=60000)
+    c.lemma("back.cos_expr", (sym.cosh(H) - e) / (1 - e * sym.cosh(H)) == sym.cos(nu), budget_ms=120000)
+    c.lemma("back.sin_expr", -(sym.sinh(H) * sym.sqrt(e * e - 1)) / (1 - e * sym.cosh(H)) == sym.sin(nu), budget_ms=120000)
+    c.ensure("back.cos", sym.cos(k[5]) == sym.cos(nu), budget_ms=120000)
+    c.ensure("back.sin", sym.sin(k[5]) == sym.sin(nu), budget_ms=120000)
 
 
 @contract("C01", "edge.mean", funcs=[f"{FORM}._keplerian_eccentric_to_keplerian_mean"])
